@@ -323,25 +323,51 @@ def drive_wd(item):
         open(f, "w").write("x")
         os.utime(f, (1_500_000_100 + k, 1_500_000_100 + k))
         prev_out, prev_abs = out, f
+    wf_src = os.path.join(dirs[scn["wfdir"]], "src.txt")
+    if not os.path.exists(wf_src):
+        open(wf_src, "w").write("src")
+        os.utime(wf_src, (1_500_000_000, 1_500_000_000))
+    # the workflow's helpers resolve relative patterns and run commands in the workflow's own working directory
+    lines.append("gwf.target('helpers', inputs=sorted(gwf.glob('src*.txt')) + sorted(gwf.iglob('./src*.txt')), outputs=[]) "
+                 "<< gwf.shell('pwd -P', universal_newlines=True)")
     sb.write("workflow.py", "\n".join(lines) + "\n")
     sb.write(".gwfconf.json", json.dumps({"backend": "slurm"}))
     runs = []
-    for cwd, args in ((P, []), (nested, []), (unrelated, ["-f", os.path.join(P, "workflow.py")])):
+    # a relative -f with a directory part, from a directory where it does not exist: gwf searches the ancestors for
+    # that relative path; an unrelated workflow.py sits in the common ancestor
+    above = os.path.dirname(P)
+    side = os.path.join(above, "other", "deep")
+    os.makedirs(side, exist_ok=True)
+    with open(os.path.join(above, "workflow.py"), "w") as fh:
+        fh.write("from gwf import Workflow\ngwf = Workflow()\ngwf.target('decoy', inputs=[], outputs=[]) << 'true'\n")
+    rel_f = os.path.join(os.path.basename(P), "workflow.py")
+    for cwd, args in ((P, []), (nested, []), (unrelated, ["-f", os.path.join(P, "workflow.py")]), (side, ["-f", rel_f])):
         r = sb.gwf(args + ["status"], cwd=cwd, sub=(variant % 2 == 0))
         table, bad = cli_defs.parse_status_table(r.stdout)
+        table.pop("helpers", None)
         ri = sb.gwf(args + ["info"], cwd=cwd)
         dep_seen = len(names) < 2
+        helpers_at = "?"
         try:
             info = json.loads(ri.stdout)
             if len(names) == 2:
                 dep_seen = info[names[1]]["dependencies"] == [names[0]]
+            # where glob()/iglob() looked and where shell() ran: the abstract directory, "?" if they disagree
+            where = {os.path.dirname(os.path.normpath(x)) for x in info["helpers"]["inputs"]} | {info["helpers"]["spec"].strip()}
+            rev = {os.path.realpath(v): k for k, v in dirs.items()}
+            if len(info["helpers"]["inputs"]) == 2 and len({os.path.realpath(w) for w in where}) == 1:
+                helpers_at = rev.get(os.path.realpath(where.pop()), "?")
         except Exception:  # noqa: BLE001
             dep_seen = False
         runs.append({"cwd": os.path.relpath(cwd, P) if cwd.startswith(P) else "unrelated", "exit": r.exit_code if not bad and r.exc is None else -1,
-                     "status": table, "ntargets": len(table), "dep_seen": dep_seen,
-                     "gwfdir_ok": os.path.isdir(os.path.join(P, ".gwf")) and not os.path.exists(os.path.join(cwd, ".gwf")) or cwd == P,
+                     "status": table, "ntargets": len(table), "dep_seen": dep_seen, "helpers_at": helpers_at,
+                     "gwfdir_ok": (os.path.isdir(os.path.join(P, ".gwf")) and not os.path.exists(os.path.join(cwd, ".gwf")) or cwd == P)
+                                  and not os.path.exists(os.path.join(above, ".gwf")),
                      "err": (r.stderr or "")[-200:]})
     shutil.rmtree(unrelated, ignore_errors=True)
+    shutil.rmtree(os.path.join(above, "other"), ignore_errors=True)
+    shutil.rmtree(os.path.join(above, ".gwf"), ignore_errors=True)
+    os.remove(os.path.join(above, "workflow.py"))
     return {"id": rid, "scn": dict(scn, variant=variant), "obs": {"runs": runs}}
 
 
